@@ -156,6 +156,7 @@ type FV struct {
 	noAssume        bool
 	assumeInstead   string
 	scriptRegion    []int
+	inCalleeFrame   bool     // the frame check in progress is for a callee's footprint, not a store of this body
 	noRecord        string   // set by lastarg()/atlast() when no call of the named function reaches the clause
 	scriptOrigin    []string // name of the contract clause an assumption came from ("" = code semantics)
 	origin          string
